@@ -277,7 +277,13 @@ func infoStr(fi hackpadfs.FileInfo) string {
 	if fi.IsDir() {
 		size = 0
 	}
-	return fmt.Sprintf("{%s %v size=%d}", fi.Name(), fi.Mode(), size)
+	// modification time: "recent" (within a few seconds of now: set by creation or a write) or "set" (older: put there by
+	// Chtimes); the exact value would differ from run to run
+	mt := "recent"
+	if d := time.Since(fi.ModTime()); d > 20*time.Second || d < -20*time.Second {
+		mt = "set"
+	}
+	return fmt.Sprintf("{%s %v size=%d mtime=%s}", fi.Name(), fi.Mode(), size, mt)
 }
 
 // fires reports whether the deviation applies to this call of op on name.
@@ -494,7 +500,10 @@ func (d *devFS) Rename(oldname, newname string) error {
 	var err error
 	switch {
 	case fire && d.sp.Kind == "noop":
-		_, err = d.inner.Stat(oldname)
+		// silently does nothing where the operation would have worked; where it fails anyway, fail the same way
+		if _, err = d.inner.Stat(oldname); err != nil {
+			err = d.inner.Rename(oldname, newname)
+		}
 	case fire && d.sp.Kind == "leavebehind":
 		data, rerr := hackpadfs.ReadFile(d.inner, oldname)
 		fi, serr := d.inner.Stat(oldname)
@@ -574,7 +583,9 @@ func (d *devFS) Chmod(name string, mode hackpadfs.FileMode) error {
 	var err error
 	switch {
 	case fire && d.sp.Kind == "noop":
-		_, err = d.inner.Stat(name)
+		if _, err = d.inner.Stat(name); err != nil {
+			err = d.inner.Chmod(name, mode)
+		}
 	case fire && d.sp.Kind == "wrongperm":
 		err = d.inner.Chmod(name, mode^0o111)
 	default:
@@ -591,7 +602,9 @@ func (d *devFS) Chtimes(name string, atime, mtime time.Time) error {
 	fire := d.fires("chtimes", name)
 	var err error
 	if fire && d.sp.Kind == "noop" {
-		_, err = d.inner.Stat(name)
+		if _, err = d.inner.Stat(name); err != nil {
+			err = d.inner.Chtimes(name, atime, mtime)
+		}
 	} else {
 		err = d.inner.Chtimes(name, atime, mtime)
 	}
